@@ -28,12 +28,13 @@ theorem C04_raw_wire (reg : Registry) (limit cap0 : Nat) (m : Msg) (bs rest : By
   have := (Raw.unpack_pack reg limit cap0 m bs rest sz hw hp hlt).1
   exact ⟨{ m with size := sz }, by rw [this], rfl, rfl, rfl⟩
 
-/-- The websocket sub-protocols have no status field: whatever status the reply carries, the
-    caller's frame has the zero status (witness: 404 "Not Found" arrives as OK). -/
+/-- The protobuf websocket sub-protocol has no status field: whatever status the reply carries, the
+    caller's frame has the zero status (witness: 404 "Not Found" arrives as OK). The JSON websocket
+    sub-protocol carries the status since fix C04b (`C04_transport_exact` applies to it). -/
 theorem C04_ws_subproto_witness :
-    transport .wsJson stNotFound = some Status.zero ∧ transport .wsPb stNotFound = some Status.zero ∧
-    (Status.zero).ok = true ∧ stNotFound.ok = false := by
-  decide
+    transport .wsPb stNotFound = some Status.zero ∧ (Status.zero).ok = true ∧ stNotFound.ok = false ∧
+    transport .wsJson stNotFound = some stNotFound := by
+  refine ⟨by decide, by decide, by decide, C04_transport_exact _ _ rfl (by decide)⟩
 
 /-! ### server side: which REPLY each cause produces -/
 
@@ -177,37 +178,64 @@ theorem C04_exact_disconnected (sc : Scenario) (hc : QuietClient sc.cli)
 /-
 FULL STATEMENT (the property text):
     (∃ d, callerObs sc = .done st d ∧ st.ok) ↔ handler ran to completion ∧ returned OK ∧ reply body decoded
-It does NOT hold for the code as written, in two ways:
-  * `C04_ok_iff_witness`: the reply body cannot be decoded into the caller's result, and the caller
-    still sees OK (the read error is stored in the context and `handleReply` never looks at it);
-  * `C04_ws_subproto_witness`: over the websocket sub-protocols a failing handler's status never
-    reaches the caller.
-Proved instead: `C04_ok_iff_partial` — over a protocol with a status field, OK ↔ (an OK reply was
-written ∧ the caller's plugins agree ∧ the decode did not hit the codec-0 path) — in which "decoded"
-is missing on the right-hand side; and `C04_ok_implies_handler_ok`: OK ⇒ the handler ran once,
-to completion, and returned OK.
+`C04_ok_iff` proves it over every protocol whose frame has a status field: OK ⇔ (an OK reply was
+written ∧ the reply was decoded into the caller's result); `C04_ok_implies_handler_ok` adds that an
+OK reply is written only by a handler that ran once, to completion, and returned OK; `C04_rule_ok`
+is the converse on the server side. `C04_rule_undecodable_reply` is the framework rule for the
+remaining case (400 "Bad Message", cause = the decoder's error text).
+Still open: `C04_ws_subproto_witness` / `C04_ok_iff_witness_ws` — over the protobuf websocket
+sub-protocol (generated payload message without a status field) a failing handler's status never
+reaches the caller; the JSON websocket sub-protocol carries it since fix C04b.
 -/
 
-/-- Caller OK ⇔ the server wrote an OK reply, no caller-side plugin vetoed, and the reply did not hit
-    the (codec id 0, undecodable) path on which the call never completes. The decode outcome
-    `sc.cli.rdec` does not decide anything on the right-hand side: that is the defect. -/
-theorem C04_ok_iff_partial (sc : Scenario) (hc : QuietClient sc.cli) (hp : sc.proto.carriesStatus = true)
+/-- Caller OK ⇔ the server wrote an OK reply and the reply was decoded into the caller's result
+    (with a quiet caller: no caller-side plugin veto, request written). When the caller sees OK, the
+    result object was filled iff the reply had a body. -/
+theorem C04_ok_iff (sc : Scenario) (hc : QuietClient sc.cli) (hp : sc.proto.carriesStatus = true)
     (r : Reply) (hrep : sc.outcome.replies = [r]) (hcode : Num.inInt32 r.status.code) :
     (∃ st d, callerObs sc = .done st d ∧ st.ok = true) ↔
-      (r.status.ok = true ∧
-       ((readErr sc.cli.codecs sc.cli.rdec r.codec (!r.hasBody) sc.cli.obj).isSome && r.codec == 0) = false) := by
+      (r.status.ok = true ∧ readErr sc.cli.codecs sc.cli.rdec r.codec (!r.hasBody) sc.cli.obj = none) := by
   have ht := C04_transport_exact _ _ hp hcode
-  have hobs : callerObs sc = clientReply sc.cli r.status r.codec r.hasBody := by
-    unfold callerObs; rw [hc.w]; simp [hc.open_, hc.wrote, hrep, ht]
-  rw [hobs]
+  rw [callerObs_reply sc hc r r.status hrep ht]
   unfold clientReply
   rw [hc.h, hc.b, hc.p]
-  cases hh : ((readErr sc.cli.codecs sc.cli.rdec r.codec (!r.hasBody) sc.cli.obj).isSome && r.codec == 0) with
-  | true => simp
-  | false =>
+  cases hh : readErr sc.cli.codecs sc.cli.rdec r.codec (!r.hasBody) sc.cli.obj with
+  | some e =>
+    cases hr : r.status.ok with
+    | true => simp [stBadMessage, copyOf, Status.ok]
+    | false => simp [hr]
+  | none =>
     cases hr : r.status.ok with
     | true => simp [hr]
     | false => simp [hr]
+
+/-- … and then the caller's status is the reply's (zero) status and the result is filled from the
+    reply body. -/
+theorem C04_ok_decoded (sc : Scenario) (hc : QuietClient sc.cli) (hp : sc.proto.carriesStatus = true)
+    (r : Reply) (hrep : sc.outcome.replies = [r]) (hcode : Num.inInt32 r.status.code)
+    (hok : r.status.ok = true)
+    (hdec : readErr sc.cli.codecs sc.cli.rdec r.codec (!r.hasBody) sc.cli.obj = none) :
+    callerObs sc = .done r.status r.hasBody := by
+  have ht := C04_transport_exact _ _ hp hcode
+  rw [callerObs_reply sc hc r r.status hrep ht]
+  unfold clientReply
+  rw [hc.h, hc.b, hc.p, hdec]
+  simp [hok]
+
+/-- rule 400 on the caller's side: an OK reply whose body cannot be decoded into the caller's
+    result (any codec id, decoder error text `e`) completes the call with
+    `(400, "Bad Message", e)` and the result left unset — the rule the server applies to an
+    undecodable CALL body (`C04_rule_bad_body`). -/
+theorem C04_rule_undecodable_reply (sc : Scenario) (hc : QuietClient sc.cli) (hp : sc.proto.carriesStatus = true)
+    (r : Reply) (hrep : sc.outcome.replies = [r]) (hcode : Num.inInt32 r.status.code)
+    (hok : r.status.ok = true) (e : Bytes)
+    (herr : readErr sc.cli.codecs sc.cli.rdec r.codec (!r.hasBody) sc.cli.obj = some e) :
+    callerObs sc = .done (stBadMessage e) false := by
+  have ht := C04_transport_exact _ _ hp hcode
+  rw [callerObs_reply sc hc r r.status hrep ht]
+  unfold clientReply
+  rw [hc.h, hc.b, hc.p, herr]
+  simp [hok]
 
 /-- "⇒" of the property over every protocol with a status field: if the caller sees OK then the
     handler was invoked exactly once, ran to completion and returned OK. -/
@@ -253,10 +281,14 @@ theorem C04_ok_implies_handler_ok (sc : Scenario) (hp : sc.proto.carriesStatus =
                 have := vetoNotOk _ v h6; rw [hobs.1] at this; simp [this] at hok
               | none =>
                 rw [h5, h6] at hobs
-                cases h7 : ((readErr sc.cli.codecs sc.cli.rdec r.codec (!r.hasBody) sc.cli.obj).isSome && r.codec == 0) with
-                | true => simp [h7] at hobs
-                | false =>
-                  simp only [h7, Bool.false_eq_true, if_false, Obs.done.injEq] at hobs
+                cases h7 : readErr sc.cli.codecs sc.cli.rdec r.codec (!r.hasBody) sc.cli.obj with
+                | some e =>
+                  simp only [h7, Obs.done.injEq] at hobs
+                  cases hro : r.status.ok with
+                  | true => rfl
+                  | false => simp [hro] at hobs; rw [← hobs.1] at hok; rw [hro] at hok; exact absurd hok (by decide)
+                | none =>
+                  simp only [h7, Obs.done.injEq] at hobs
                   cases hro : r.status.ok with
                   | true => rfl
                   | false => simp [hro] at hobs; rw [← hobs.1] at hok; rw [hro] at hok; exact absurd hok (by decide)
@@ -279,7 +311,7 @@ theorem C04_ok_implies_handler_ok (sc : Scenario) (hp : sc.proto.carriesStatus =
     | push h' => simp [(handlePush_facts _ _ _).2.2.1] at hr
     | call h' _ => exact ok_reply_from_handler _ _ _ _ _ _ _ r hr hro
 
-/-! ### Witnesses: the full statement fails on the unchanged code -/
+/-! ### Witnesses -/
 
 def exCfg : Cfg := { calls := [[47, 97]], rawCalls := [[47, 97]], codecs := [106] }
 def exFrame : Frame := ⟨1, 7, [47, 97], 106, false, none⟩
@@ -288,28 +320,48 @@ def exRet : Ret := { rawResult := true }
 def exUndecodable : Scenario :=
   { proto := .raw, cfg := exCfg, frame := exFrame, hb := .ret Status.zero exRet false,
     cli := { codecs := [106], rdec := some [101] } }
-/-- over a websocket sub-protocol, a handler failing with (7, "no", nil). -/
+/-- over the protobuf websocket sub-protocol, a handler failing with (7, "no", nil). -/
 def exWs : Scenario :=
-  { proto := .wsJson, cfg := exCfg, frame := exFrame, hb := .ret ⟨7, [110, 111], none⟩ exRet false,
+  { proto := .wsPb, cfg := exCfg, frame := exFrame, hb := .ret ⟨7, [110, 111], none⟩ exRet false,
     cli := { codecs := [106] } }
 def exFail : Scenario :=
   { exUndecodable with hb := .ret ⟨-2147483648, [37, 0, 255], some []⟩ exRet false }
 def exNoRoute : Scenario := { exUndecodable with frame := { exFrame with method := [47, 98] } }
 
-/-- Defect: the reply body cannot be decoded into the caller's result and the caller sees OK with
-    the result left unset. Reproduced on the real code (`c04:undecodable-reply-seen-as-ok`). -/
-theorem C04_ok_iff_witness :
-    callerObs exUndecodable = .done Status.zero false ∧ exUndecodable.cli.rdec ≠ none := by
-  refine ⟨?_, by decide⟩
-  rw [callerObs_reply exUndecodable ⟨rfl, rfl, rfl, rfl, rfl, rfl⟩ ⟨7, Status.zero, 106, true⟩ Status.zero
-    (by decide) (C04_transport_exact _ _ rfl (by decide))]
-  decide
+/-- The former defect `c04:undecodable-reply-seen-as-ok`, repaired: the handler returns the JSON
+    string `"str"`, the caller asked for an int — the caller now sees `(400, "Bad Message", e)`
+    (`C04_rule_undecodable_reply` applies: non-vacuity). -/
+example : callerObs exUndecodable = .done (stBadMessage [101]) false :=
+  C04_rule_undecodable_reply exUndecodable ⟨rfl, rfl, rfl, rfl, rfl, rfl⟩ rfl ⟨7, Status.zero, 106, true⟩
+    (by decide) (by decide) (by decide) [101] (by decide)
 
-/-- Defect: over a websocket sub-protocol a handler failing with (7, "no", nil) is seen as OK. -/
+/-- the same call with a reply body that decodes. -/
+def exDecodable : Scenario := { exUndecodable with cli := { codecs := [106] } }
+
+/-- `C04_ok_iff` / `C04_ok_decoded` apply (non-vacuity): OK, result filled. -/
+example : callerObs exDecodable = .done Status.zero true :=
+  C04_ok_decoded exDecodable ⟨rfl, rfl, rfl, rfl, rfl, rfl⟩ rfl ⟨7, Status.zero, 106, true⟩
+    (by decide) (by decide) (by decide) (by decide)
+example : ∃ st d, callerObs exDecodable = .done st d ∧ st.ok = true :=
+  (C04_ok_iff exDecodable ⟨rfl, rfl, rfl, rfl, rfl, rfl⟩ rfl ⟨7, Status.zero, 106, true⟩ (by decide) (by decide)).2
+    ⟨by decide, by decide⟩
+example : ¬ ∃ st d, callerObs exUndecodable = .done st d ∧ st.ok = true := fun h =>
+  absurd ((C04_ok_iff exUndecodable ⟨rfl, rfl, rfl, rfl, rfl, rfl⟩ rfl ⟨7, Status.zero, 106, true⟩ (by decide)
+    (by decide)).1 h).2 (by decide)
+
+/-- Defect (open): over the protobuf websocket sub-protocol a handler failing with (7, "no", nil) is
+    seen as OK; over the JSON one it is seen exactly (next example). -/
 theorem C04_ok_iff_witness_ws : callerObs exWs = .done Status.zero false := by
   rw [callerObs_reply exWs ⟨rfl, rfl, rfl, rfl, rfl, rfl⟩ ⟨7, ⟨7, [110, 111], none⟩, 0, false⟩ Status.zero
     (by decide) (by decide)]
   decide
+
+/-- the same failing handler over the JSON websocket sub-protocol is seen exactly (fix C04b;
+    `C04_rule_handler_status` + `C04_exact` apply with `proto := .wsJson`). -/
+example : callerObs { exWs with proto := .wsJson } = .done ⟨7, [110, 111], none⟩ false :=
+  C04_exact { exWs with proto := .wsJson } ⟨rfl, rfl, rfl, rfl, rfl, rfl⟩ rfl _ (by decide) (by decide)
+    (C04_rule_handler_status { exWs with proto := .wsJson } ⟨rfl, rfl, rfl, rfl, rfl, rfl⟩
+      ⟨rfl, rfl, rfl, rfl, ⟨true, .inl (by decide)⟩, by intro obj; cases obj <;> decide⟩ _ exRet false rfl (by decide)).1
 
 /-! ### Non-vacuity -/
 
